@@ -34,7 +34,8 @@ EXPLANATION = (
     "agreement, weekday(n=0), empty same-level BY set and unreachable MINUTELY/SECONDLY combinations raise ValueError "
     "before use. C01.DEFAULTS: start-derived defaults are taken from the same-named start field under the "
     "'no day selector supplied' condition. C01.UNIT: second/minute-of-day arithmetic uses 3600/60/1, 86399, 1439, "
-    "24*60, 24*3600 and weeks of 7 days.")
+    "24*60, 24*3600 and weeks of 7 days. C01.EXC: constructing a rule lets only ValueError / OverflowError escape "
+    "(exception-escape analysis of rrule.__init__ and its callees).")
 ASSUMPTIONS = ["interval >= 1 (documented)", "datetime/calendar stdlib as documented",
                "week-number masks, nth-weekday placement, sub-daily reachability and the set semantics themselves: NOT decided"]
 
@@ -336,6 +337,10 @@ def run(ctx):
     okv = len(inv) == 2 and all(src(r.ast.exc).startswith("ValueError") and ("valid", False) in facts.at(r) for r in inv)
     ctx.ob("C01.GUARD", it, "MINUTELY/SECONDLY rules whose BY filters can never be met raise ValueError instead of looping", okv, construct="not valid -> ValueError",
            detail=str([src(r.ast.exc)[:40] for r in inv]))
+
+    # ---------------------------------------------------------------- C01.EXC
+    from ..exc import check_escape
+    check_escape(ctx, "C01.EXC", init, ("ValueError", "OverflowError"), min_functions=4, label="rrule()")
 
     # ---------------------------------------------------------------- C01.DEFAULTS
     want_d = {"bymonth = dtstart.month": "freq == YEARLY", "bymonthday = dtstart.day": None, "byweekday = dtstart.weekday()": "freq == WEEKLY"}
